@@ -5,8 +5,8 @@
    colls[i].alone and colls[i].keys were observed when collection i was computed
    ALONE (every key of its graph evaluated on its own).  The record is rejected
    when some res[i] differs from colls[i].alone; the extra clauses name the cause
-   (a key registered with two different values inside the tuple; a permutation of
-   the expected results across kinds).                                       *)
+   (kinds interleaved; a key registered with two different values inside the tuple;
+   results that are a permutation of the expected ones).                                       *)
 EXTENDS KeySpace, TraceIO
 
 Bad(r) == TogetherBad(r.colls, r.res, r.raised)
